@@ -46,7 +46,8 @@ let hex_of_n (x : n) : string =
     Buffer.contents buf
 
 let () =
-  let idx = ref 0 in
+  (* optional argument: the index of the first case (for sharded runs) *)
+  let idx = ref (if Array.length Sys.argv > 1 then int_of_string Sys.argv.(1) else 0) in
   (try
     while true do
       let line = input_line stdin in
